@@ -108,7 +108,7 @@ Delta(j, p, dn, acc) ==
          [] OTHER -> 0
 
 U32Max == 2147483647        \* (TLC integers are 32-bit signed; the register is 32-bit unsigned: inputs stay below 2^31)
-AddSat(a, b) == IF a + b > U32Max THEN U32Max ELSE a + b
+AddSat(a, b) == IF a > U32Max - b THEN U32Max ELSE a + b
 
 DtInitWith(D) ==
     /\ Devs = D /\ i = 1
